@@ -349,8 +349,9 @@ def resolver_verdict(s: str) -> str:
         return ACC
     if c == UNS or a == UNS:
         return UNS
-    # leading whitespace before an AHB expression: the AHB grammar has no place for it, the documentation is silent
-    stripped = s.lstrip(WS_CORE)
+    # leading whitespace (of any kind: what str.lstrip() removes) before an AHB expression: the AHB grammar has no place for it, the
+    # documentation is silent - an implementation that strips it first is as good as one that refuses it
+    stripped = s.lstrip()
     if stripped != s and stripped and split_ahb(stripped)[0] != REJ:
         return UNS
     return REJ
